@@ -20,13 +20,13 @@ def run(tier, seed):
     gen = [
         # immediate delivery: every history of 3 calls over callbacks + a small mutator family
         dict(name="C13_exh_imm", consts=ec.consts((SMALLQ if q else SMALL) | CB | {"nodefer"}, 3, wa=37, wb=1021, data=("bLa",) if q else ("a", "bLa"), nsel=(1, 9), cbmode=1),
-             stride=2 if q else 1),
+             stride=4 if q else 1),
         # deferred delivery (event_base + event_base_loop(NONBLOCK))
         dict(name="C13_exh_def", consts=ec.consts((SMALLQ if q else SMALL) | CB | {"loop"}, 3, wa=37, wb=1021, data=("bLa",) if q else ("a", "bLa"), nsel=(1, 9), cbmode=2),
-             stride=2 if q else 1),
+             stride=4 if q else 1),
         # one callback installed, then every 3-call history of moves (callbacks really fire in every history)
         # multi-chain start (3 forced adds), then every 2-call history: a callback installed on a buffer whose data spans chains
-        dict(name="C13_warm_moves", consts=ec.consts({"add", "drain", "rmbuf", "addbuf", "cbadd"}, 5, wa=509, wb=2048,
+        dict(name="C13_warm_moves", consts=ec.consts({"add", "rmbuf", "addbuf", "cbadd"} | (set() if q else {"drain"}), 5, wa=509, wb=2048,
                                                     data=("a", "b"), nsel=(1, 2, 9), cbmode=1, warm=3)),
     ]
     for mode in (1, 2):
@@ -35,7 +35,7 @@ def run(tier, seed):
                             consts=ec.consts(MUT | CB | ({"nodefer"} if mode == 1 else {"loop"}), 18 if q else 30, wa=wa, wb=wb,
                                              data=("", "a", "b", "aCL", "L", "bLa"), nsel=(0, 1, 2, 5, 9), sizes=(0, 2000),
                                              maxlen=8, cbmode=mode),
-                            simulate=15 if q else 60, depth=90))
+                            simulate=8 if q else 60, depth=90))
     if not q:
         gen += [
             dict(name="C13_warm_moves_def", consts=ec.consts({"add", "drain", "rmbuf", "addbuf", "cbadd", "loop"}, 5, wa=1021, wb=4099,
@@ -43,7 +43,7 @@ def run(tier, seed):
         ]
     # open finding: NODEFER callbacks on a buffer with deferred callbacks (excluded above: "nodefer" not in Acts for mode 2)
     gen.append(dict(name="C13_known_nodefer",
-                    consts=ec.consts({"add", "cbadd", "cbflag", "loop", "nodefer"}, 4, data=("a",), nsel=(1,), cbmode=2),
+                    consts=ec.consts({"add", "cbadd", "cbflag", "nodefer"}, 4, data=("a",), nsel=(1,), cbmode=2),
                     key_fn=nodefer_key))
     plan = {
         "mc": [("C13_mc_imm", ec.consts((SMALL if q else MUT) | CB | {"nodefer"}, 3, wa=2, wb=3, data=("a", "aCL"), nsel=(1, 9), sizes=(0,), cbmode=1)),
